@@ -725,6 +725,9 @@ func bitwiseRightShift(n, s Number) (Number, error) {
 	case Integer:
 		switch s := s.(type) {
 		case Integer:
+			if s < 0 {
+				return Integer(n << shiftAmount(s)), nil
+			}
 			return Integer(n >> s), nil
 		default:
 			return nil, typeError(validTypeInteger, s, nil)
@@ -734,12 +737,20 @@ func bitwiseRightShift(n, s Number) (Number, error) {
 	}
 }
 
+// shiftAmount returns the magnitude of a negative shift s, which shifts in the opposite direction.
+func shiftAmount(s Integer) uint64 {
+	return uint64(-(s + 1)) + 1
+}
+
 // bitwiseLeftShift returns n bit-shifted by s to the left.
 func bitwiseLeftShift(n, s Number) (Number, error) {
 	switch n := n.(type) {
 	case Integer:
 		switch s := s.(type) {
 		case Integer:
+			if s < 0 {
+				return Integer(n >> shiftAmount(s)), nil
+			}
 			return Integer(n << s), nil
 		default:
 			return nil, typeError(validTypeInteger, s, nil)
